@@ -519,3 +519,47 @@ def run_plan(plan, seed, scratch, decisions=None, keep=False):
     finally:
         if not keep:
             shutil.rmtree(wd, ignore_errors=True)
+
+
+import contextlib
+
+
+@contextlib.contextmanager
+def controlled_experiment(workdir, name="cx"):
+    """A NORMAL-mode experiment on the controlled engine with nobody driving it: jobs get registered
+    and scheduled for real, but no helper thread ever runs and nothing is launched."""
+    from experimaestro import experiment
+    import experimaestro.ipc as xipc
+
+    install()
+    workdir = Path(workdir)
+    workdir.mkdir(parents=True, exist_ok=True)
+    eng = engb.Engine(0, workdir)
+    prev_engine, prev_cur, prev_ipc = engb.ENGINE, CURRENT[0], xipc.IPCom.INSTANCE
+    engb.ENGINE = eng
+    eng.ipcom = engb.FakeIPCom()
+    xipc.IPCom.INSTANCE = eng.ipcom
+    xp = experiment(workdir / "ws", name, launcher=engb.make_launcher(eng, workdir))
+    xp.__enter__()
+    central = xp.central
+    eng.loop = xp.loop
+    xp._xv_engine = eng
+    try:
+        yield xp
+    finally:
+        loop = central.loop
+        try:
+            xp.__exit__(RuntimeError, RuntimeError("leaving"), None)
+        finally:
+            try:
+                loop.call_soon_threadsafe(lambda: None)
+            except Exception:
+                pass
+            central.join(2)
+            if not central.is_alive():
+                try:
+                    loop.close()
+                except Exception:
+                    pass
+            engb.ENGINE, CURRENT[0], xipc.IPCom.INSTANCE = prev_engine, prev_cur, prev_ipc
+            shutil.rmtree(workdir, ignore_errors=True)
